@@ -65,14 +65,14 @@ pub open spec fn decommit_root(c: &Commitment, queries: Seq<(nat, nat)>, auth: S
     root_spec(shifted(queries, c.config.height@), 0, c.config.n_verifier_friendly_commitment_layers@, auth, 0)
 }
 
-//@repo crates/commitment/src/vector/decommit.rs fn vector_commitment_decommit props=C01,C02,C04,C05 rules=H_slice_map_collect
+//@repo crates/commitment/src/vector/decommit.rs fn vector_commitment_decommit props=C01,C02,C04,C05,C07 rules=H_slice_map_collect
 pub fn vector_commitment_decommit(
     commitment: Commitment,
     queries: &[Query],
     witness: Witness,
 ) -> (r: Result<(), Error>)
     ensures
-        r.is_ok() <==> decommit_root(&commitment, query_pairs(queries@), fv(witness.authentications@)) == Some(commitment.commitment_hash@), // [C01,C02,C04,C05:decommit-ok-iff-walk-yields-committed-root]
+        r.is_ok() <==> decommit_root(&commitment, query_pairs(queries@), fv(witness.authentications@)) == Some(commitment.commitment_hash@), // [C01,C02,C04,C05,C07:decommit-ok-iff-walk-yields-committed-root]
 {
     let shift = Felt::TWO.pow_felt(&commitment.config.height);
     // Shifts the query indices by shift=2**height, to convert index representation to heap-like.
